@@ -132,6 +132,15 @@ def api_cases(ctx, budget):
         seq = [ctx.rng.choice(g) for _ in range(ctx.rng.randint(2, 4))]
         t = p.pre_parse(gen.any_text(ctx.rng, g[0]))
         out.append((t, seq))
+    # the entry point wants the WHOLE input: a rule for part of a line (which cannot take the line end) on a sentence of its own followed by
+    # the newline pre_parse always adds - or by something else - must be refused; without the remainder it is accepted
+    part = [('inline', 'hello'), ('bold', '**bold**'), ('italics', '//it//'), ('ref', '{{>http://example.com link}}'), ('block_attrs', '.cls{a b}'),
+            ('hier_element_name', 'PART'), ('hier_element_heading', ' 1 - Heading'), ('class_name', 'cls'), ('attr_value', 'a b'), ('space', '  '),
+            ('footnote_ref', '{{FOOTNOTE 1}}'), ('image', '{{IMG a.png alt}}'), ('num_content', 'x'), ('escape', '\\x'), ('newline', '\n'), ('eol', '\n\n')]
+    for r, t in part:
+        if r in rules:
+            for tail in ('', '\n', '\n\n', ' ', 'x', '\n\x0f\n'):
+                out.append((t + tail, [r, r]))
     return out
 
 def api_stream(ctx, budget, sink):
